@@ -24,22 +24,132 @@ Proof.
   cbn. unfold time_overlap, disjoint. cbn. repeat split; lia.
 Qed.
 
-(* ---------- HillClimb: random.randint(0, len(turn_list) - 2) with a one-element turn_list ---------- *)
+(* ---------- HillClimb: random.randint(0, len(turn_list) - 2) with a one-element turn_list (old code) ---------- *)
 Definition p8_witness : list lr :=
   [mkLr 3 3 100 128 0; mkLr 1 2 100 16 1; mkLr 0 1 1 32 2; mkLr 1 1 16 32 3; mkLr 2 3 1 64 4].
 (* the results of random.randint after random.seed(1) on this input (recorded from the real allocator) *)
 Definition p8_stream : list Z :=
   [17; 0; 0; 15; 1; 1; 60; 2; 1; 100; 0; 0; 62; 0; 1; 55; 4; 0; 89; 1; 1; 92; 0; 0; 40; 0; 0; 3; 2; 0; 48; 2; 0; 54; 2; 0; 67; 0; 1; 63; 4; 1; 44; 1; 1; 97; 3; 1; 2; 0; 0; 23; 0; 0; 95; 2; 2; 91; 2; 1; 64; 2; 0; 38; 1; 1; 64; 1; 0; 61; 0; 0; 53; 0; 0; 70; 1; 0; 56; 0; 0; 66; 1; 0; 62; 0; 0; 5; 1; 0; 82; 0; 0; 64; 0; 0; 98; 0; 0; 51; 1; 0; 58; 1; 0; 49; 0; 0; 54; 0; 0; 46; 0; 0; 62; 1; 0; 44; 0; 0; 58; 0; 0; 81; 0; 0; 11; 1; 0; 86; 0; 0; 2; 1; 0; 96; 1; 0; 34; 0; 0; 44; 1; 0; 21; 0; 0; 67; 0; 0; 82; 1; 0; 89; 1; 0; 60; 0; 0; 39; 1; 0; 53; 0; 0; 0; 1; 93; 2; 0; 2; 1; 2; 0; 0; 1; 0; 4; 0; 3; 4; 3; 69; 0; 1; 0; 2; 83; 0; 1; 2; 2; 41; 3; 0; 2; 1; 27; 0; 0; 0; 0; 39; 1; 0; 1; 1; 16; 0; 0; 0; 1; 21; 2; 0; 1; 0; 44; 0; 1; 4; 3; 75; 1; 3; 0; 3; 37; 1; 0; 1; 1; 36; 0; 0; 1; 2; 72; 1; 1; 3; 1; 34; 2; 0; 1; 2; 44; 2; 1; 2; 0; 8; 0; 0; 1; 1; 21; 2; 0; 1; 1; 76; 2; 1; 1; 1; 43; 0; 0; 0; 1; 17; 2; 0; 1; 0; 52; 0; 3; 1; 1; 43; 0; 1; 0; 2; 70; 0; 0; 1; 1; 37; 2; 0; 1; 1; 13; 0; 1; 0; 2; 85; 0; 0; 1; 0; 5; 0; 1; 4; 3; 20; 0; 0; 0; 0; 20; 0; 0; 1; 1; 70; 1; 0; 1; 0; 26; 2; 1; 0; 0; 1; 1; 1; 1; 1; 40; 1; 0; 0; 1; 76; 1; 0; 1; 0; 100; 2; 1; 2; 1; 33; 0; 0; 1; 0; 31; 2; 0; 2; 0; 96; 1; 0; 2; 2; 82; 2; 1; 3; 2; 5; 0; 0; 1; 2; 38; 0; 1; 0; 2; 78; 2; 0; 0; 0; 2; 0; 1; 0; 1; 70; 0; 0; 0; 2; 1; 1; 1; 1; 1; 19; 0; 1; 0; 2; 85; 0; 0; 0; 0; 40; 1; 0; 2; 2; 77; 2; 1; 1; 1; 69; 0; 1; 1; 1; 38; 0].
 
-Lemma hillclimb_randint_refuted_lemma :
+(* The code BEFORE the repair of P8 (random.randint(0, len(turn_list) - 2) without the max): the same
+   definitions as model/Alloc.v with that one bound changed.  Kept only to record the defect. *)
+Section OldCode.
+  Variable S : Type.
+  Variable next : S -> Z * S.
+  Definition old_attempt_bottleneck_fix (lrs : list lr) (nbrs : list (list Z)) (st : list hinfo) (idx : list Z)
+             (stuck : Z) (s : S * Z) : res (list Z * (S * Z)) :=
+    let mx := bottleneck st in
+    match zget lrs mx, zget nbrs mx with
+    | Some mxr, Some mxn =>
+      match add_predecessor_turns st [] mx with
+      | Err c => Err c
+      | Ok tl0 =>
+        match add_pred_list st tl0 mxn with
+        | Err c => Err c
+        | Ok tl =>
+          match non_nb_turns lrs idx mxr tl with
+          | Err c => Err c
+          | Ok nn =>
+            match randint S next 0 100 s with
+            | Err c => Err c
+            | Ok (r0, s0) =>
+              match (if (r0 <? 30) && negb (zlen nn =? 0) then pick S next nn 1 s0 else pick S next tl 1 s0) with
+              | Err c => Err c
+              | Ok (ix1, s1) =>
+                match pick S next tl 2 s1 with
+                | Err c => Err c
+                | Ok (ix2a, s2) =>
+                  let ix2 := if ix1 =? ix2a then last tl 0 else ix2a in
+                  match zswap idx ix1 ix2 with
+                  | Err c => Err c
+                  | Ok idx1 =>
+                    if stuck >? MAX_ITERATIONS_STUCK then
+                      match add_more_turns nbrs st idx1 tl nn with
+                      | Err c => Err c
+                      | Ok tl2 =>
+                        match pick S next tl2 1 s2 with
+                        | Err c => Err c
+                        | Ok (jx1, s3) =>
+                          match pick S next tl2 1 s3 with
+                          | Err c => Err c
+                          | Ok (jx2, s4) =>
+                            match zswap idx1 jx1 jx2 with
+                            | Err c => Err c
+                            | Ok idx2 => Ok (idx2, s4)
+                            end
+                          end
+                        end
+                      end
+                    else Ok (idx1, s2)
+                  end
+                end
+              end
+            end
+          end
+        end
+      end
+    | _, _ => Err 2
+    end.
+
+  Definition old_search_step (lrs : list lr) (nbrs : list (list Z)) (minreq maxit limit : Z) (x : sstate S)
+    : step_res (sstate S) sresult :=
+    if ((ss_best S x >? limit) && (ss_i S x <? maxit)) || (ss_i S x - ss_last S x <? MIN_ITERATIONS_IMPROVE) then
+      match old_attempt_bottleneck_fix lrs nbrs (ss_st S x) (ss_idx S x) (ss_i S x - ss_last S x) (ss_rng S x) with
+      | Err c => Done (Err c)
+      | Ok (idx1, rng1) =>
+        match allocate_indices lrs nbrs (ss_best S x) idx1 (ss_st S x) with
+        | Err c => Done (Err c)
+        | Ok (st1, new_size) =>
+          if new_size <=? ss_best S x then
+            let last1 := if new_size <? ss_best S x then ss_i S x else ss_last S x in
+            let x1 := mkSS S rng1 st1 idx1 idx1 new_size last1 (ss_i S x) (map h_addr st1) in
+            if new_size <=? minreq then Done (ss_result S x1)
+            else Continue (mkSS S rng1 st1 idx1 idx1 new_size last1 (ss_i S x + 1) (map h_addr st1))
+          else
+            Continue (mkSS S rng1 st1 (ss_bidx S x) (ss_bidx S x) (ss_best S x) (ss_last S x) (ss_i S x + 1) (ss_addrs S x))
+        end
+      end
+    else Done (ss_result S x).
+
+  Definition old_search (lrs : list lr) (nbrs : list (list Z)) (minreq maxit limit : Z) (x : sstate S) : sresult :=
+    match iter_pos (search_fuel minreq maxit (ss_best S x)) (old_search_step lrs nbrs minreq maxit limit) x with
+    | Done r => r
+    | Continue _ => Err 5
+    end.
+
+  Definition old_hillclimb (lrs : list lr) (max_iterations : option Z) (limit : Z) (s : S) : sresult :=
+    match lrs with
+    | [] => Ok ([], 0, 0, 0)
+    | _ =>
+      let nbrs := all_neighbours lrs in
+      let minreq := min_required_size lrs in
+      let maxit := match max_iterations with None => MAX_ITERATIONS | Some m => m end in
+      let idx := initial_indices lrs in
+      match allocate_indices lrs nbrs (2 ^ 63) idx (initial_state lrs) with
+      | Err c => Err c
+      | Ok (st1, best) =>
+          let x := mkSS S (s, 0) st1 idx idx best 0 0 (map h_addr st1) in
+          if best >? minreq then old_search lrs nbrs minreq maxit limit x
+          else ss_result S x
+      end
+    end.
+End OldCode.
+
+Lemma hillclimb_randint_old_code_refuted_lemma :
   exists lrs mi limit s,
     Forall hc_wf lrs /\ footprint_bound lrs <= 2 ^ 63 /\
-    hillclimb (list Z) next_list lrs mi limit s = Err 1.
+    old_hillclimb (list Z) next_list lrs mi limit s = Err 1.
 Proof.
   exists p8_witness, (Some 0), (2 ^ 32), p8_stream.
   split; [repeat constructor; cbn; lia|]. split; [vm_compute; discriminate|].
   vm_compute. reflexivity.
 Qed.
+
+(* the repaired code on the same input and stream: a result *)
+Example hillclimb_p8_witness_now_ok :
+  exists addrs best iters draws,
+    hillclimb (list Z) next_list p8_witness (Some 0) (2 ^ 32) p8_stream = Ok (addrs, best, iters, draws) /\ iters = 503.
+Proof. eexists. eexists. eexists. eexists. split; vm_compute; reflexivity. Qed.
 
 (* ---------- satisfiable hypotheses ---------- *)
 (* four ranges, two alignments larger than the size, a gap below the last buffer *)
